@@ -219,12 +219,21 @@ pub open spec fn gas_limit_for(s: Raw, a: Amount) -> Option<Option<u64>> {
     broadcast use ics_axioms;
 @end
 
-// ASSUMED LEAF (`splitn(3, '/')` string code): bounded Kani stand-in kani/parse_voucher_denom.rs.
-// voucher_local(denom, port, channel) = Some(x) iff denom == port + "/" + channel + "/" + x  (the meaning is only assumed here)
-pub uninterp spec fn voucher_local(denom: Seq<char>, port: Seq<char>, channel: Seq<char>) -> Option<Seq<char>>;
-@fn contracts/cw20-ics20/src/ibc.rs parse_voucher_denom [assume]
-@ensures C11.parse_voucher_denom
+// `splitn(3, '/').collect()` goes through E11 to a shim function with the ASSUMED std semantics (the parts are an uninterpreted
+// function of the string); the body of parse_voucher_denom itself is verified. The thorough tier adds a bounded Kani harness that
+// checks the concrete meaning (denom == port + "/" + channel + "/" + local) on the compiled function.
+/// voucher_local(denom, port, channel) = Some(x) iff splitting denom at the first two '/' gives exactly [port, channel, x]
+pub open spec fn voucher_local(denom: Seq<char>, port: Seq<char>, channel: Seq<char>) -> Option<Seq<char>> {
+    let sp = splitn_spec(denom, 3, '/');
+    if sp.len() == 3 && sp[0] == port && sp[1] == channel { Some(sp[2]) } else { None }
+}
+@fn contracts/cw20-ics20/src/ibc.rs parse_voucher_denom
+@ensures C11.parse_voucher_denom C12
     r is Ok ==> voucher_local(voucher_denom@, remote_endpoint.port_id@, remote_endpoint.channel_id@) == Some(r->Ok_0@)
+@replace E11 "voucher_denom.splitn(3, '/').collect()" 1
+    str_splitn(voucher_denom, 3, '/')
+@prefix
+    broadcast use string_conv;
 @end
 
 /// what a successfully received packet does (C11, C12): the local denomination must carry the counterparty's port/channel
@@ -375,6 +384,10 @@ pub open spec fn step_transfer(s: Raw, t: Raw, tm: TransferMsg, amount: Amount) 
 @ensures C11.receive_cw20_escrow C12 C18
     r is Ok ==> info.funds@.len() == 0 && exists|tm: TransferMsg, a: String| #![auto] TransferMsg::unjson(wrapper.msg@) == Some(tm) && a@ == info.sender@
         && step_transfer(old(deps.storage).view(), final(deps.storage).view(), tm, Amount::Cw20(Cw20Coin { address: a, amount: wrapper.amount }))
+@ensures C12.receive_emits_one_packet
+    r is Ok ==> r->Ok_0.messages@.len() == 1 && exists|tm: TransferMsg, a: String| #![auto] TransferMsg::unjson(wrapper.msg@) == Some(tm) && a@ == info.sender@
+        && is_transfer_packet(r->Ok_0.messages@[0], tm.channel@, Amount::Cw20(Cw20Coin { address: a, amount: wrapper.amount }), wrapper.sender@, tm,
+            env.block.time.ns() + (match tm.timeout { Some(t) => t, None => config_of(old(deps.storage).view())->Some_0.default_timeout }) * 1_000_000_000)
 @end
 
 /// C18: Allow is governance-only and only ever loosens: a new entry, or an existing one whose limit is raised / removed
@@ -414,6 +427,15 @@ pub open spec fn step_msg(s: Raw, t: Raw, sender: Addr, funds: Seq<Coin>, msg: E
 @fn contracts/cw20-ics20/src/contract.rs execute
 @ensures C12.execute_step C11 C18
     r is Ok ==> step_msg(old(deps.storage).view(), final(deps.storage).view(), info.sender, info.funds@, msg)
+@ensures C12.execute_dispatch_msgs C11
+    r is Ok ==> match msg {
+        ExecuteMsg::Transfer(tm) => r->Ok_0.messages@.len() == 1 && is_transfer_packet(r->Ok_0.messages@[0], tm.channel@, Amount::Native(info.funds@[0]), info.sender@, tm,
+            env.block.time.ns() + (match tm.timeout { Some(t) => t, None => config_of(old(deps.storage).view())->Some_0.default_timeout }) * 1_000_000_000),
+        ExecuteMsg::Receive(w) => r->Ok_0.messages@.len() == 1 && exists|tm: TransferMsg, a: String| #![auto] TransferMsg::unjson(w.msg@) == Some(tm) && a@ == info.sender@
+            && is_transfer_packet(r->Ok_0.messages@[0], tm.channel@, Amount::Cw20(Cw20Coin { address: a, amount: w.amount }), w.sender@, tm,
+                env.block.time.ns() + (match tm.timeout { Some(t) => t, None => config_of(old(deps.storage).view())->Some_0.default_timeout }) * 1_000_000_000),
+        _ => r->Ok_0.messages@.len() == 0,
+    }
 @prefix
     broadcast use ics_axioms;
 @end
@@ -425,6 +447,9 @@ use super::*;
 impl SerT for Config { uninterp spec fn ser(self) -> Seq<u8>; uninterp spec fn de(b: Seq<u8>) -> Option<Self>; }
 @const contracts/cw20-ics20/src/migrations.rs v1::CONFIG
 } // mod v1
+/// what the (assumed) v2 -> v3 reconciliation establishes between the storage before and after it; its meaning is not modelled,
+/// the relation only records THAT the reconciliation ran on a given pre-state
+pub uninterp spec fn reconciled(s: Raw, t: Raw, env: Env) -> bool;
 pub mod v2 {
 use super::*;
 // ASSUMED LEAF (range scans + bank / cw20 balance queries): reconciles channel balances with the contract's actual holdings;
@@ -433,6 +458,8 @@ use super::*;
 @ensures C12.update_balances_frame C18
     forall|k: Seq<u8>| unpath(k).0 != "channel_state"@ ==> #[trigger] old(deps.storage).view().contains_key(k) == final(deps.storage).view().contains_key(k)
         && (old(deps.storage).view().contains_key(k) ==> old(deps.storage).view()[k] == final(deps.storage).view()[k])
+@ensures C12.update_balances_reconciles C11
+    r is Ok ==> reconciled(old(deps.storage).view(), final(deps.storage).view(), *env)
 @end
 } // mod v2
 pub use semver::Version;
@@ -472,7 +499,20 @@ pub open spec fn v1_style(s: Raw) -> bool {
     && (semver::ver_lt(semver::ver_parse(cw2_version(s))->Some_0, semver::ver_parse("0.12.0-alpha1"@)->Some_0)
         || semver::ver_parse(cw2_version(s))->Some_0 == semver::ver_parse("0.12.0-alpha1"@)->Some_0)
 }
+/// the stored version is at most 0.13.0: channel balances still have to be reconciled with the contract's holdings (v2 -> v3)
+pub open spec fn upto_v3(s: Raw) -> bool {
+    semver::ver_parse(cw2_version(s)) is Some && semver::ver_parse("0.13.0"@) is Some
+    && (semver::ver_lt(semver::ver_parse(cw2_version(s))->Some_0, semver::ver_parse("0.13.0"@)->Some_0)
+        || semver::ver_parse(cw2_version(s))->Some_0 == semver::ver_parse("0.13.0"@)->Some_0)
+}
+pub open spec fn same_channel_state(s: Raw, t: Raw) -> bool {
+    forall|k: Seq<u8>| unpath(k).0 == "channel_state"@ ==> #[trigger] s.contains_key(k) == t.contains_key(k) && (s.contains_key(k) ==> s[k] == t[k])
+}
 @fn contracts/cw20-ics20/src/contract.rs migrate [closures: 1]
+@ensures C11.migrate_reconciles_exactly_old_versions C12
+    r is Ok ==> (if upto_v3(old(deps.storage).view()) {
+        exists|a: Raw, b: Raw| #[trigger] reconciled(a, b, env) && same_channel_state(old(deps.storage).view(), a) && same_channel_state(b, final(deps.storage).view())
+    } else { same_channel_state(old(deps.storage).view(), final(deps.storage).view()) })
 @ensures C18.migrate_keeps_allow_list
     r is Ok ==> forall|a: Seq<char>| #![trigger allow_key(a)] allow_of(final(deps.storage).view(), a) == allow_of(old(deps.storage).view(), a)
 @ensures C18.migrate_sets_default
@@ -490,20 +530,28 @@ pub open spec fn v1_style(s: Raw) -> bool {
     let ghost mut s1 = s0;
     let ghost mut s2 = s0;
     let ghost mut s3 = s0;
+    let ghost mut sa = s0;
     proof {
         lemma_ns6();
-        reveal_strlit("0.12.0-alpha1");
+        reveal_strlit("0.12.0-alpha1"); reveal_strlit("0.13.0");
         assert(unpath(item_key("admin"@)).0 == "admin"@ && unpath(item_key("ics20_config"@)).0 == "ics20_config"@ && unpath(cw2_key()).0 == "contract_info"@);
     }
 @insert_before "if storage_version <= MIGRATE_VERSION_3.parse().map_err(from_semver)?" 1
     proof {
-        s1 = deps.storage.view(); s2 = s1; s3 = s1;
+        s1 = deps.storage.view(); s2 = s1; s3 = s1; sa = s1;
+        assert(same_channel_state(s0, s1)) by {
+            assert forall|k: Seq<u8>| unpath(k).0 == "channel_state"@ implies #[trigger] s0.contains_key(k) == s1.contains_key(k) && (s0.contains_key(k) ==> s0[k] == s1[k]) by {
+                assert(k != item_key("admin"@) && k != item_key("ics20_config"@) && k != cw2_key());
+            }
+        }
         assert forall|a: Seq<char>| allow_of(s1, a) == allow_of(s0, a) by { assert(unpath(allow_key(a)).0 == "allow_list"@); }
         assert(!v1_style(s0) ==> config_of(s1) == config_of(s0));
     }
 @insert_before "if msg.default_gas_limit.is_some()" 1
     proof {
         s2 = deps.storage.view(); s3 = s2;
+        assert(upto_v3(s0) ==> reconciled(sa, s2, env));
+        assert(!upto_v3(s0) ==> s2 == sa);
         assert forall|a: Seq<char>| allow_of(s2, a) == allow_of(s1, a) by {
             assert(unpath(allow_key(a)).0 == "allow_list"@);
             assert(s1.contains_key(allow_key(a)) == s2.contains_key(allow_key(a)));
@@ -522,6 +570,11 @@ pub open spec fn v1_style(s: Raw) -> bool {
         let t = deps.storage.view();
         assert forall|a: Seq<char>| allow_of(t, a) == allow_of(s3, a) by { assert(unpath(allow_key(a)).0 == "allow_list"@); }
         assert(config_of(t) == config_of(s3));
+        assert(same_channel_state(s2, t)) by {
+            assert forall|k: Seq<u8>| unpath(k).0 == "channel_state"@ implies #[trigger] s2.contains_key(k) == t.contains_key(k) && (s2.contains_key(k) ==> s2[k] == t[k]) by {
+                assert(k != item_key("ics20_config"@) && k != cw2_key());
+            }
+        }
     }
 @end
 
